@@ -139,10 +139,14 @@ def run_plain(part, case):
     except Exception as e:
         part.violation(key + ":build-raises-" + type(e).__name__, case, {"exception": repr(e)[:300]})
         return
-    for blocks in graphref.set_partitions(range(n)):
+    parts = case["partitions"] if "partitions" in case else graphref.set_partitions(range(n))
+    for blocks in parts:
         exp = all(graphref.induced_connected(n, edges, b) for b in blocks) and sizes_ok(blocks, spec, n)
         gcheck.judge(part, key, case, [sorted(b) for b in blocks], exp, s, partition_fixes(gid, blocks) + extra)
-    part.add("graphs", (n, tuple(edges)))
+    if "partitions" in case:
+        part.add("scale", (n, repr(spec)))
+    else:
+        part.add("graphs", (n, tuple(edges)))
 
 
 # ------------------------------------------------------------------ borders
@@ -275,9 +279,39 @@ def cases_for(tier):
     return out
 
 
+def scale_cases(tier):
+    """Deep groups on larger boards: the serpentine corridor as one group, leftover strips as groups of their own."""
+    from mc.rules import base as rbase
+
+    out = []
+    big = [(3, 4), (4, 3), (1, 10)] if tier == "quick" else [(3, 4), (4, 3), (4, 4), (5, 3), (1, 14)]
+    for h, w in big:
+        n = h * w
+        cid = lambda c: c[0] * w + c[1]  # noqa: E731
+        corridor = [cid(c) for c in graphref.serpentine(h, w)]
+        rest = [(y, x) for y in range(h) for x in range(w) if cid((y, x)) not in set(corridor)]
+        comps = [sorted(cid(c) for c in comp) for comp in rbase.components(rest)]
+        good = [sorted(corridor)] + comps
+        order = [cid(c) for c in graphref.serpentine_order(h, w)]
+        cut = [sorted(order[: len(order) // 2]), sorted(order[len(order) // 2 :])] + comps
+        parts = [good, cut, [sorted(range(n))]]
+        if len(comps) >= 2:
+            parts.append([sorted(corridor), sorted(comps[0] + comps[1])] + comps[2:])  # a group in two pieces
+        size_corr = len(corridor)
+        lst = [None] * n
+        lst[order[0]] = size_corr
+        lst2 = [None] * n
+        lst2[order[-1]] = size_corr - 1
+        for spec in (None, ("list", lst), ("list", lst2), ("const", n)):
+            if n >= 15 and spec is not None and spec[0] == "list":
+                continue  # a single z3 query of the size encoding takes ~1 min there
+            out.append({"variant": "plain", "form": "grid", "shape": [h, w], "n": n, "spec": spec, "partitions": parts})
+    return out
+
+
 def prepare(tier):
     global _CASES
-    _CASES = cases_for(tier)
+    _CASES = cases_for(tier) + scale_cases(tier)
     return _CASES
 
 
@@ -285,6 +319,8 @@ _BELL = [1, 1, 2, 5, 15, 52, 203, 877, 4140]
 
 
 def size_of(c):
+    if "partitions" in c:
+        return 30 * len(c["partitions"])
     if c["variant"] == "plain":
         return _BELL[c["n"]]
     return 1 << len(c["edges"])
@@ -314,7 +350,8 @@ def main(tier, seed, only=None):
         "exploration",
         "no borders: all labelled simple graphs n<=%d, grids <= %d cells; ALL set partitions imposed on the returned ids (== within, "
         "!= across blocks); group_size absent / constant 1..n / IntVar / per-vertex lists over {None,1,2,3} (all 4^n for n<=3, "
-        "<= %d specified entries beyond) as list, IntArray1D, 2-D list, IntArray2D, with shape inference.  With borders: all graphs "
+        "<= %d specified entries beyond) as list, IntArray1D, 2-D list, IntArray2D, with shape inference; scale family (not exhaustive): the serpentine corridor as one group on boards up to 4x3 (thorough 4x4, 5x3) with its "
+        "size given at either end, cut in two, or merged with a separated strip.  With borders: all graphs "
         "n<=4 and BoolInnerGridFrame grids <= %d cells, ALL 2^m border patterns, same size specs, native graph-division operator "
         "off/on/by config.  Oracle: blocks connected and sized as specified; with borders additionally every border edge joins two "
         "different blocks." % (4 if tier == "quick" else 5, 6 if tier == "quick" else 8, 1 if tier == "quick" else 2, 6 if tier == "quick" else 8),
